@@ -174,6 +174,26 @@ func runC10(c *Ctx) {
 				key := "store-synchronous@" + funcName(fn)
 				_, isGo := in.(*ssa.Go)
 				_, isDefer := in.(*ssa.Defer)
+				if sites, asValue := callSitesOf(fn); isNewHelper(fn) && !asValue && len(sites) > 0 && !isGo && !isDefer {
+					// a store helper: what matters is how each of its callers runs it
+					for _, st := range sites {
+						sf := st.Parent()
+						_, g1 := st.(*ssa.Go)
+						_, d1 := st.(*ssa.Defer)
+						sp := false
+						if par := sf.Parent(); par != nil {
+							eachInstr(par, func(y ssa.Instruction) {
+								if g, ok := y.(*ssa.Go); ok {
+									if mc, ok := g.Call.Value.(*ssa.MakeClosure); ok && mc.Fn == ssa.Value(sf) {
+										sp = true
+									}
+								}
+							})
+						}
+						c.check(!g1 && !d1 && !sp, "store-synchronous@"+funcName(sf), instrPos(st), "the response is copied into the cache synchronously (through "+fn.Name()+")", "the response is copied into the cache from a goroutine (or deferred): by then the caller and later plugins may already have rewritten it, and what they wrote is what other queries are served")
+					}
+					return
+				}
 				spawned := false
 				if par := fn.Parent(); par != nil {
 					eachInstr(par, func(y ssa.Instruction) {
